@@ -61,7 +61,7 @@ def path_walk(world, gen_):
 
 
 def run_shard(acc, prop, tier, seed, shard, nshards, **kw):
-    _w.shard(acc, PROP, tier, seed, shard, nshards, factory, WEIGHTS, (12, (140, 220)), (500, (140, 300)), CORR,
+    _w.shard(acc, PROP, tier, seed, shard, nshards, factory, WEIGHTS, (12, (140, 220)), (300, (140, 300)), CORR,
              post_hook=path_walk, post_every=(2, 1))
 
 
